@@ -48,6 +48,7 @@ fn main() {
             rep.rule = "one execution = (combinator, parameters, input sequence(s) over {0,1,2}, size-hint mode, fusedness of the scripted upstreams, placement of <= k Pending answers over all polls of all scripted sources incl. before Ended); distinct non-trivial = distinct (combinator, parameters, inputs) with >= 1 item or free input that ran under >= 1 schedule with an injected Pending".into();
             rep.explanation = "real dfir_pipes pull combinators over scripted Pull/Stream/Future sources vs the std::iter (itertools for zip_longest) adapter on the same item sequences: delivered items equal in order; FusedPull types return Ended on 3 further pulls; non-fused scripted upstreams panic if re-polled after Ended; before every pull size_hint().0 <= remaining <= size_hint().1; a Pending step requires a Pending source in that call".into();
             rep.bound("max_len", t.max_len);
+            rep.bound("max_len_two_level_compositions", 3);
             rep.bound("alphabet", 3);
             rep.bound("pending_deviation_bound_total", t.k);
             let shards = combi::sequences_upto(&[0u8, 1, 2], t.max_len);
@@ -60,7 +61,7 @@ fn main() {
             }
         }
         "C12" => {
-            let t = if thorough { Tier { max_len: 4, k: 3, thorough } } else { Tier { max_len: 3, k: 2, thorough } };
+            let t = if thorough { Tier { max_len: 4, k: 4, thorough } } else { Tier { max_len: 3, k: 2, thorough } };
             rep.rule = "one execution = (combinator, parameters, input sequence over {0,1,2}, placement of <= k Pending answers over all poll_ready/poll_finalize calls of all scripted downstreams and all polls of scripted futures/streams/pulls); distinct non-trivial = distinct (combinator, parameters, input) that ran under >= 1 schedule with an injected Pending".into();
             rep.explanation = "real dfir_pipes push combinators fed by the canonical driver (poll_ready until Done, start_send, ..., poll_finalize until Done) into scripted protocol-checking pushes: per downstream the received items equal the reference semantics (in order; multisets for hash-map emission), every start_send is preceded by a Done from poll_ready (latest answer Done), nothing is sent after finalize completed, every downstream is finalized".into();
             rep.bound("max_len", t.max_len);
@@ -82,7 +83,7 @@ fn main() {
             rep.bound("pending_deviation_bound_total", k);
             rep.bound("items_per_side_1tick", if thorough { 3 } else { 2 });
             rep.bound("items_per_side_2tick", if thorough { "tick1 <= 2, tick2 <= 1" } else { "<= 1 per tick" });
-            rep.bound("items_per_side_3tick", if thorough { "<= 1 per tick" } else { "<= 1 per tick; kinds SetxSet and MultisetxMultiset; at least one side 'static" });
+            rep.bound("items_per_side_3tick", if thorough { "<= 1 per tick; at least one side 'static" } else { "<= 1 per tick; kinds SetxSet and MultisetxMultiset; at least one side 'static" });
             let plan: [(usize, usize, usize); 3] = if thorough { [(1, 3, 3), (2, 2, 2), (3, 1, 2)] } else { [(1, 2, 2), (2, 1, 2), (3, 1, 1)] };
             for (s, (n_ticks, max_len, k)) in sections.iter().zip(plan) {
                 let t = Tier { max_len, k, thorough };
